@@ -23,6 +23,11 @@ theorem ecbUpdate_two (f : Bytes → Bytes) (a b : Bytes) (ha : a.length = 8) (h
     ecbUpdate f (a ++ b) = f a ++ f b := by
   simp [ecbUpdate, blocks8_append a b ha, blocks8_single b hb]
 
+/-- two whole blocks under a 16-byte key: ECB is `T K B₁ ‖ T K B₂` -/
+theorem ecb_two_blocks (K a b : Bytes) (hK : K.length = 16) (ha : a.length = 8) (hb : b.length = 8) :
+    encryptTdesEcb K (a ++ b) = .ok (tdesE K a ++ tdesE K b) := by
+  rw [encryptTdesEcb_16 K _ hK, ecbUpdate_two _ a b ha hb]
+
 theorem cbc_one_block_zero_iv (f : Bytes → Bytes) (x : Bytes) (hx : x.length = 8) :
     (cbcEncUpdate f (zeros 8) x).1 = f x := by
   simp [cbcEncUpdate, blocks8_single x hx, cbcEncBlocks, xorB_zeros x 8 hx]
